@@ -60,6 +60,9 @@ where
             return;
         };
 
+        #[cfg(p2panda_p2panda_verif)]
+        p2panda_core::verif::point("tracker.mark_as_done.after_remove").await;
+
         task.mark_as_done(result).await;
     }
 }
@@ -108,7 +111,13 @@ where
             *ready_result = Some(result);
         }
 
+        #[cfg(p2panda_p2panda_verif)]
+        p2panda_core::verif::point("task.mark_as_done.after_set").await;
+
         self.ready_signal.notify_waiters();
+
+        #[cfg(p2panda_p2panda_verif)]
+        p2panda_core::verif::point("task.mark_as_done.after_notify").await;
     }
 
     /// Await this task until it is ready and we've received the result.
